@@ -56,7 +56,7 @@ fn run_generic(id: &'static str, tier: &str, seed: u64, threads: usize, historie
     };
     let required: Vec<(&str, u64)> = match id {
         "C10" => vec![("c10.cells", 1), ("c10.unauthorised_cells_rejected", 1), ("c10.principal_passes", 1), ("c10.token_address_change_rejected", 1), ("c10.state_class.evolved", 1), ("c10.state_class.transfer_completed", 1), ("c10.state_class.transfer_abandoned", 1), ("c10.state_class.registry_unset", 1), ("c10.state_class.only_bsei_token_registered", 1), ("c10.state_class.only_stsei_token_registered", 1), ("c10.all_privileged_variants_reached_by_principal", 1)],
-        "C11" => vec![("c11.paused_cells", 1), ("c11.paused_cells_rejected", 1), ("c11.owner_update_params_while_paused", 1), ("c11.migrations", 1), ("c11.unpause_rejected_with_legacy_entries", 1), ("c11.auto_unpause_after_migration", 1), ("c11.twins_compared", 1), ("c11.twin_pause_windows", 1), ("c11.queries_while_paused", 1), ("c11.hook_cells_via_token_send", 1)],
+        "C11" => vec![("c11.paused_cells", 1), ("c11.paused_cells_rejected", 1), ("c11.owner_update_params_while_paused", 1), ("c11.migrations", 1), ("c11.unpause_rejected_with_legacy_entries", 1), ("c11.auto_unpause_after_migration", 1), ("c11.twins_compared", 1), ("c11.twin_pause_windows", 1), ("c11.queries_while_paused", 1), ("c11.hook_cells_via_token_send", 1), ("c11.migrations_longer_than_default_page", 1)],
         _ => vec![("c20.updates_accepted", 1), ("c20.updates_rejected", 1), ("c20.hub_params_updates", 1), ("c20.dispatcher_config_updates", 1), ("c20.instantiates_rejected", 1), ("c20.threshold_clamped", 1), ("c20.stsei_denom_update_rejected", 1), ("c20.token_address_update_rejected", 1), ("c20.first_token_registrations", 1), ("c20.partial_updates_checked", 1)],
     };
     finish(id, tier, seed, sum, &required, rule, t0, replay.is_some(), json!({}))
@@ -709,7 +709,7 @@ fn plant_legacy(w: &mut World, r: &mut Rng, n: usize) {
     let st = w.stores.get_mut(HUB).unwrap();
     for i in 0..n {
         let addr = to_json_vec(&format!("legacy{}", i % 5)).unwrap();
-        let batch = to_json_vec(&(1000 + r.range(0, 3) + i as u64)).unwrap();
+        let batch = to_json_vec(&(1000 + 4 * i as u64 + r.range(0, 3))).unwrap();
         let mut b: Bucket<Uint128> = Bucket::multilevel(st, &[basset_sei_hub::state::OLD_PREFIX_WAIT_MAP, &addr]);
         b.save(&batch, &Uint128::new(r.range128(1, 1_000_000))).unwrap();
     }
@@ -844,8 +844,14 @@ fn c11_world(seed: u64, index: u64, thorough: bool) -> HistoryReport {
     // ------------ part 2: legacy wait-list entries keep the hub paused until migrated
     if out.violations.is_empty() {
         let mut c = w.clone();
-        let planted = r.range(1, 12) as usize;
+        // mostly a handful of entries; sometimes more than the migration's default page (1000) so that an
+        // unbounded call (`limit: None`) cannot finish in one go
+        let big = r.chance(1, 8);
+        let planted = if big { r.range(1001, 1012) as usize } else { r.range(1, 12) as usize };
         plant_legacy(&mut c, &mut r, planted);
+        if big {
+            out.count("c11.migrations_longer_than_default_page");
+        }
         let total = legacy_left(&c);
         let r1 = pause_op(true).apply(&mut c);
         if !r1.ok() {
@@ -869,10 +875,12 @@ fn c11_world(seed: u64, index: u64, thorough: bool) -> HistoryReport {
             if (Op::Bond { user: USERS[0].into(), amount: 10 }).apply(&mut c3).ok() {
                 out.violation("C11", "blocked_while_paused", "Bond succeeded during the legacy migration".into());
             }
-            let chunk = r.range(1, 5) as u32;
             let before = legacy_left(&c);
+            // page size: small explicit limits, or the default page (None = 1000 entries)
+            let limit: Option<u32> = if before > 20 { if r.chance(2, 3) { None } else { Some(r.range(400, 1500) as u32) } } else { Some(r.range(1, 5) as u32) };
+            let chunk = limit.unwrap_or(1000);
             let sender = if r.chance(1, 2) { STRANGER } else { OWNER };
-            let rm_ = raw(sender, HUB, &h::ExecuteMsg::MigrateUnbondWaitList { limit: Some(chunk) }).apply(&mut c);
+            let rm_ = raw(sender, HUB, &h::ExecuteMsg::MigrateUnbondWaitList { limit }).apply(&mut c);
             out.count("c11.migrations");
             if !rm_.ok() {
                 out.violation("C11", "migration_allowed_while_paused", format!("MigrateUnbondWaitList failed while paused: {:?}", rm_.tx.map(|t| t.err)));
@@ -895,7 +903,7 @@ fn c11_world(seed: u64, index: u64, thorough: bool) -> HistoryReport {
             }
             // migrated entries are reported faithfully and nothing else changed
             let mut n_new = 0;
-            for i in 0..5 {
+            for i in 0..5usize {
                 if let Ok(rq) = c.q::<h::UnbondRequestsResponse, _>(HUB, &h::QueryMsg::UnbondRequests { address: format!("legacy{}", i) }) {
                     n_new += rq.requests.len();
                 }
